@@ -375,6 +375,63 @@ fn pass_through_leg(acc: &mut Acc) {
     }
 }
 
+/// Many artifacts: two links that record 40 materials and 40 products and differ in one digest,
+/// one algorithm, one extra or one missing entry at a chosen position of the sorted map - early,
+/// around 16 and 32, and last. A comparison that looks at part of a map misses the rest.
+fn many_artifacts_leg(acc: &mut Acc) {
+    let f = fns();
+    let owner = keys::get("ed6");
+    let dir = util::fresh_dir("c07m");
+    let n = 40usize;
+    let base: Artifacts = (0..n).map(|i| (world::vpath(&format!("f{i:02}")), world::desc(1 + (i % 200) as u8))).collect();
+    let lay = world::sign_layout(world::layout(vec![world::step("s", 2, &f[..2])], vec![], &f[..2], world::far_future()), &[owner]);
+    for pos in [0usize, 1, 15, 16, 17, 31, 32, 33, 39] {
+        for kind in ["digest", "algorithm", "missing", "extra-after"] {
+            for side in ["materials", "products"] {
+                let mut other = base.clone();
+                let key = world::vpath(&format!("f{pos:02}"));
+                match kind {
+                    "digest" => {
+                        other.insert(key, world::desc(250));
+                    }
+                    "algorithm" => {
+                        let mut d = in_toto::models::TargetDescription::new();
+                        d.insert(HashAlgorithm::Sha512, HashValue::new(world::h(1 + (pos % 200) as u8)));
+                        other.insert(key, d);
+                    }
+                    "missing" => {
+                        other.remove(&key);
+                    }
+                    _ => {
+                        other.insert(world::vpath(&format!("f{pos:02}x")), world::desc(9));
+                    }
+                }
+                for dissenter in 0..2 {
+                    for e in std::fs::read_dir(&dir).unwrap().flatten() {
+                        let _ = std::fs::remove_file(e.path());
+                    }
+                    for (i, k) in f.iter().take(2).enumerate() {
+                        let mine = if i == dissenter { other.clone() } else { base.clone() };
+                        let l = if side == "materials" { world::link("s", mine, base.clone()) } else { world::link("s", base.clone(), mine) };
+                        world::write(&dir, &world::link_file("s", k), &world::block_text(&world::sign_link(l, &[k])));
+                    }
+                    acc.states += 1;
+                    acc.nontrivial += 1;
+                    for (script, verdict) in run_orders_at(&dir, &lay, acc, "C") {
+                        acc.outcome(&format!("many-artifacts|{}", verdict.tag()));
+                        let w = || json!({"kind": "many-artifacts", "entries": n, "dissent": kind, "position": pos, "side": side, "dissenter": dissenter, "schedule": script});
+                        match &verdict {
+                            Verdict::Ok(_) => acc.violation(&format!("accepted-dissent:many-artifacts:{kind}"), &format!("two links with {n} {side} each were accepted although they differ ({kind}) at sorted position {pos}"), w),
+                            Verdict::Panic(l, m) => acc.violation(&format!("panic:{l}"), m, w),
+                            Verdict::Err(_) => {}
+                        }
+                    }
+                }
+            }
+        }
+    }
+}
+
 fn delegated_leg(acc: &mut Acc) {
     let (a, b, inner_f, owner) = (keys::get("ed1"), keys::get("ed2"), keys::get("ed5"), keys::get("ed6"));
     let dir = util::fresh_dir("c07d");
@@ -565,8 +622,9 @@ pub fn run(tier: Tier) -> i32 {
     delegated_leg(&mut acc);
     two_ids_leg(&mut acc);
     pass_through_leg(&mut acc);
+    many_artifacts_leg(&mut acc);
     c.acc = acc;
-    c.rule = "state = vector of per-link variations (43 kinds, the last 14 for k = 2 only: none; the path of one entry re-spelled (blank / newline / NUL / slash appended, blank or ./ prepended, upper case) in a link that was read from text before it was signed; in materials or products: a second algorithm added with one of two values, other path, last / first digest byte, digest truncated by a byte / extended by a byte / of no bytes, other algorithm, second algorithm added, extra entry sorting last / first, missing last / first entry, empty map) for k authorised valid links, optionally plus a dissenting link by a key outside the key table or a tampered one; transition = change one link's variation; every state runs in_toto_verify for thresholds 2..min(k,3), with the step alone, next to a single-party step (before it, after it, after a threshold-0 step) and next to a second multi-party step whose links agree (before it, after it) under every permutation of the reference-link choice (site C); plus pass-through steps (the agreeing links record one map as materials and as products, or nothing on either side; 10 kinds of dissent in the products only; 2 and 3 links, each as the dissenter; every order at sites A and C); plus one functionary key under two ids with a link under each, one dissenting (8 variations x which id dissents x thresholds 2, 3 x every order at sites A and C); plus a delegated multi-party step (two functionaries, two-step sub-layouts) with a dissent at each of 6 places, 4 of them visible in the summaries; non-trivial = vectors that are not all equal".into();
+    c.rule = "state = vector of per-link variations (43 kinds, the last 14 for k = 2 only: none; the path of one entry re-spelled (blank / newline / NUL / slash appended, blank or ./ prepended, upper case) in a link that was read from text before it was signed; in materials or products: a second algorithm added with one of two values, other path, last / first digest byte, digest truncated by a byte / extended by a byte / of no bytes, other algorithm, second algorithm added, extra entry sorting last / first, missing last / first entry, empty map) for k authorised valid links, optionally plus a dissenting link by a key outside the key table or a tampered one; transition = change one link's variation; every state runs in_toto_verify for thresholds 2..min(k,3), with the step alone, next to a single-party step (before it, after it, after a threshold-0 step) and next to a second multi-party step whose links agree (before it, after it) under every permutation of the reference-link choice (site C); plus two links with 40 materials and 40 products that differ at one of 9 sorted positions (first, around 16 and 32, last) in one of 4 ways; plus pass-through steps (the agreeing links record one map as materials and as products, or nothing on either side; 10 kinds of dissent in the products only; 2 and 3 links, each as the dissenter; every order at sites A and C); plus one functionary key under two ids with a link under each, one dissenting (8 variations x which id dissents x thresholds 2, 3 x every order at sites A and C); plus a delegated multi-party step (two functionaries, two-step sub-layouts) with a dissent at each of 6 places, 4 of them visible in the summaries; non-trivial = vectors that are not all equal".into();
     c.bound_completed = format!("complete variation vectors for {} (BFS reaches every vector)", bounds.join(", "));
     c.assume("all k links are validly signed by authorised keys of the key table; no rules (isolates C03)");
     c.finish()
@@ -576,6 +634,11 @@ pub fn replay(case: &Value) -> Value {
     if case["kind"] == "delegated" {
         let mut acc = Acc::new();
         delegated_leg(&mut acc);
+        return json!({"violation": acc.violations.keys().next()});
+    }
+    if case["kind"] == "many-artifacts" {
+        let mut acc = Acc::new();
+        many_artifacts_leg(&mut acc);
         return json!({"violation": acc.violations.keys().next()});
     }
     if case["kind"] == "pass-through" {
